@@ -33,6 +33,9 @@ Days4 == {0, 29, 31, 91}
 Days3 == {1, 31, 91}
 Days2 == {1, 31}
 Days1 == {1}
+Days_0_29 == {0, 29}
+Days_1_89 == {1, 89}
+Days_1_91 == {1, 91}
 DaysAny == 0..400
 RF_unreadable == {"tombUnreadable"}
 RF_state == {"stateCorrupt"}
@@ -40,4 +43,52 @@ RF_none == {}
 RF_tomb == {"tombCorrupt"}
 RF_corrupt == {"tombCorrupt", "stateCorrupt"}
 RF_all == {"tombCorrupt", "stateCorrupt", "tombUnreadable"}
+(***************************************************************************)
+(* Directed scenarios.  Each D_* is the NEGATION of a situation one clause *)
+(* of C09 is about; TLC's counter-example (Dir_*.cfg) is the shortest      *)
+(* history that reaches it, and checks/c09.py runs that history on the     *)
+(* code.  The predicates are stated just before the run's last step, when  *)
+(* everything the run did is in the state.                                 *)
+(***************************************************************************)
+AtEnd   == pc = "PublishOrClear"
+NoErr   == ~tombErr /\ ~stateErr
+\* an add hold-down one day short: the pending key is present, authenticated, 29 days old
+D_Pend29Present == ~(AtEnd /\ NoErr /\ ~revOnly /\ \E t \in DOMAIN cur :
+                        cur[t].st = "AddPend" /\ cur[t].age = 29 /\ t \in DOMAIN fetched /\ fetched[t] = cur[t].k)
+\* ... and completed
+D_Promote31     == ~(AtEnd /\ NoErr /\ \E k \in KeysIn(cur, {"Valid"}) \ Configured : k \notin rootKeys)
+\* a pending key that skips one accepted refresh starts over
+D_PendAbort     == ~(pc = "WriteTombstones" /\ gFull /\ \E k \in Keys \ Configured :
+                        seenSince[k] # None /\ seenSince[k] > 0 /\ k \notin Plain(zone) /\ k \notin rootKeys)
+D_Missing89Kept == ~(AtEnd /\ NoErr /\ \E t \in DOMAIN cur : cur[t].st = "Missing" /\ cur[t].age = 89)
+D_Missing91Gone == ~(AtEnd /\ NoErr /\ gFull /\ gRevSet = {} /\ \E k \in gT : k \notin KeysIn(cur, Trusted \cup Marker))
+D_Reappear      == ~(pc = "WriteTombstones" /\ gFull /\ \E k \in gT \cap Plain(zone) : missSince[k] # None /\ missSince[k] > 0)
+D_RevokeFull    == ~(AtEnd /\ NoErr /\ gFull /\ newRev)
+D_RevokeOnly    == ~(AtEnd /\ NoErr /\ revOnly /\ newRev)
+\* a response only a revoked key authenticates offers a new key and omits a trusted one
+D_RevokeOnlyBait == ~(AtEnd /\ NoErr /\ revOnly /\ newRev /\ Plain(zone) \ gT # {} /\ (gT \ zone.keys) # {})
+D_RevokeOnlyPend == ~(AtEnd /\ NoErr /\ revOnly /\ newRev /\ \E t \in DOMAIN cur : cur[t].st = "AddPend" /\ cur[t].age >= 30
+                                                                  /\ t \in DOMAIN fetched)
+D_DoubleFail    == ~(AtEnd /\ newRev /\ tombErr /\ stateErr)
+D_DoubleFailNoRev == ~(AtEnd /\ ~newRev /\ tombErr /\ stateErr /\ gFull)
+\* the tombstone write failed last time: the marker in the state file is migrated
+D_MarkerMigrated == ~(AtEnd /\ NoErr /\ nWF = 1 /\ tombs # {} /\ \E k \in tombs \cap Configured : k \notin gT /\ gRevSet = {})
+\* a revoked key the configuration still lists, after a restart
+D_StaleConfig   == ~(AtEnd /\ NoErr /\ booting /\ nRestart = 1 /\ nCrash = 0 /\ tombs \cap Configured # {} /\ gRevSet = {})
+\* the process died between the two writes of the refresh that revoked a configured key
+D_CrashBetween  == ~(AtEnd /\ booting /\ nCrash = 1 /\ tombs \cap Configured # {} /\ gRevSet = {}
+                     /\ stateFile.kind = "ok" /\ revAcc # {})
+\* the process died before anything of the refresh that first saw a new key was written
+D_CrashBeforeWrites == ~(AtEnd /\ NoErr /\ nCrash = 1 /\ gFull /\ \E t \in DOMAIN cur :
+                            cur[t].st = "AddPend" /\ cur[t].age = 0 /\ seenSince[cur[t].k] # None /\ seenSince[cur[t].k] > 0)
+D_TombCorrupt   == ~(pc = "idle" /\ ~booting /\ tombFile.kind = "corrupt" /\ nRefresh = 2)
+D_StateCorrupt  == ~(AtEnd /\ NoErr /\ nRF = 1 /\ gFull /\ earned # {})
+\* unauthenticated bait: new key offered, trusted key dropped, nobody trusted signs
+D_UnauthBait    == ~(pc = "Authenticate" /\ ~booting /\ ~OracleAuth /\ Plain(zone) \ rootKeys # {} /\ rootKeys \ zone.keys # {}
+                     /\ zone.signedN # {})
+\* REVOKE bit without the key's own signature, in a set a trusted key signs
+D_RevokeNoSelfSig == ~(AtEnd /\ NoErr /\ gFull /\ \E k \in (zone.revoked \cap gT) : k \notin zone.signedR)
+\* a self-signed revoked key whose tag collides with the revoked form of a trusted anchor
+D_CollidingRevoke == ~(AtEnd /\ NoErr /\ gFull /\ "C" \in zone.revoked /\ "C" \in zone.signedR /\ "A" \in gT
+                       /\ "A" \notin zone.keys)
 =============================================================================
